@@ -4,7 +4,7 @@
    hook-exported key sets of the two decoder tables). *)
 From V.lib Require Import Base.
 From V.c04 Require Import C04Model C04AsmModel C04ContainerProofs.
-From V.c03 Require Import C03Model C03Spec C03Registry C03Proofs C03CanonProofs C03LeafModel C03LeafProofs C03LeafBoxProofs C03LeafInstProofs C03StsdProofs C03VseProofs C03LeafTruncProofs.
+From V.c03 Require Import C03Model C03Spec C03Registry C03Proofs C03CanonProofs C03LeafModel C03LeafProofs C03LeafBoxProofs C03LeafInstProofs C03StsdProofs C03VseProofs C03LeafTruncProofs C03LeafEncProofs.
 Open Scope N_scope.
 
 (* Encode to an io.Writer and EncodeSW to a slice writer: identical bytes or both fail, for every container tree and
@@ -207,6 +207,26 @@ Theorem C03_vse_pair_agree_canonical : forall ld, leaf_ok ld -> forall nm a b cn
 Proof. exact vse_pair_agree_canonical. Qed.
 Print Assumptions C03_vse_pair_agree_canonical.
 
+(* ---- the encoder pairs that are written twice: MdatBox, StsdBox, VisualSampleEntryBox Encode / EncodeSW (models in
+   C03LeafModel.v; TrunBox.Encode and SencBox.Encode call their own EncodeSW) ----
+   same bytes or both fail, given children that agree; hence these boxes are agreeing leaves of C03_box_encode_agree /
+   C03_encode_agree (the hypothesis `agree` is discharged for them) *)
+Theorem C03_mdat_enc_agree : forall m, mdat_enc_w m = mdat_enc_sw m /\ agree (ELeaf (mdat_enc_w m) (mdat_enc_sw m)) = true.
+Proof. exact (fun m => conj (mdat_enc_agree m) (mdat_leaf_agrees m)). Qed.
+Print Assumptions C03_mdat_enc_agree.
+
+Theorem C03_stsd_enc_agree : forall version flags count size kids, agree_list kids = true ->
+  stsd_enc_w version flags count size kids = stsd_enc_sw version flags count size kids /\
+  agree (ELeaf (stsd_enc_w version flags count size kids) (stsd_enc_sw version flags count size kids)) = true.
+Proof. exact (fun v f c s k H => conj (stsd_enc_agree v f c s k H) (stsd_leaf_agrees v f c s k H)). Qed.
+Print Assumptions C03_stsd_enc_agree.
+
+Theorem C03_vse_enc_agree : forall name v size kids, agree_list kids = true ->
+  vse_enc_w name v size kids = vse_enc_sw name v size kids /\
+  agree (ELeaf (vse_enc_w name v size kids) (vse_enc_sw name v size kids)) = true.
+Proof. exact (fun n v s k H => conj (vse_enc_agree n v s k H) (vse_leaf_agrees n v s k H)). Qed.
+Print Assumptions C03_vse_enc_agree.
+
 (* the two dispatch tables register the same box types (regenerated from /repo on every run) *)
 Theorem C03_registry : keys_decoders = keys_decoders_sr.
 Proof. exact registry_equal. Qed.
@@ -304,3 +324,8 @@ Proof. vm_compute. reflexivity. Qed.
 Example ex_vse_box_r : entbox_r (be4 (8 + 78 + 9) ++ name_avc1 ++ ex_vse_fixed ++ cenc (CLeaf name_free [5]%N))
   = Ok (EVse (mkVse 1 320 240 4718592 4718592 1 [97;98]%N [Leaf name_free 9]), 95%N).
 Proof. vm_compute. reflexivity. Qed.
+
+(* MdatBox with LargeSize: the 16-byte header is kept by both encoders *)
+Example ex_mdat_enc : mdat_enc_w (mkMdat [9;8]%N true) = Ok [0;0;0;1;109;100;97;116;0;0;0;0;0;0;0;18;9;8]%N
+  /\ mdat_enc_sw (mkMdat [9;8]%N true) = Ok [0;0;0;1;109;100;97;116;0;0;0;0;0;0;0;18;9;8]%N.
+Proof. split; vm_compute; reflexivity. Qed.
